@@ -107,6 +107,70 @@ theorem cut_unsafe_struct (h : Heap) (a : Nat) (fields : Obj) (ha : h[a]? = some
 theorem cut_unsafe_slice (ty : Ty) (es : Vals) (hu : anyUnsafe es = true) : safeV (.slice ty es) = "[...]" := by
   simp [safeV, hu]
 
+/-! ### self-containing containers: rendering terminates on every container heap -/
+
+theorem mapM_some_of_forall {α β : Type} (f : α → Option β) (l : List α) (h : ∀ x ∈ l, (f x).isSome) :
+    (l.mapM f).isSome := by
+  induction l with
+  | nil => simp
+  | cons x xs ih =>
+    have hx := h x (by simp)
+    have hxs := ih (fun y hy => h y (by simp [hy]))
+    cases hfx : f x with
+    | none => simp [hfx] at hx
+    | some b =>
+      cases hm : xs.mapM f with
+      | none => simp [hm] at hxs
+      | some bs => simp [List.mapM_cons, hfx, hm]
+
+/-- **cyc_total.** On any container heap — cyclic or not — rendering with the path cut never runs
+    out of fuel as soon as the fuel exceeds the number of containers not yet on the path: the
+    recursion is bounded by the heap, not by the data's (infinite) unfolding. -/
+theorem cyc_total (h : CHeap) : ∀ (fuel : Nat) (path : List Nat) (v : CVal),
+    path.Nodup → (∀ a ∈ path, a < h.length) → h.length < fuel + path.length →
+    (renderC h fuel path v).isSome := by
+  intro fuel
+  induction fuel with
+  | zero =>
+    intro path v hnd hin hf
+    exfalso
+    have : path.length ≤ h.length := by
+      have hsub : path ⊆ List.range h.length := fun a ha => List.mem_range.mpr (hin a ha)
+      have := hnd.length_le_of_subset hsub
+      simpa using this
+    omega
+  | succ fuel ih =>
+    intro path v hnd hin hf
+    cases v with
+    | int n => simp [renderC]
+    | cref a =>
+      simp only [renderC]
+      by_cases hp : a ∈ path
+      · simp [hp]
+      · simp only [hp, if_false]
+        cases ha : h[a]? with
+        | none => simp
+        | some elems =>
+          have halt : a < h.length := (List.getElem?_eq_some_iff.mp ha).1
+          have := mapM_some_of_forall (renderC h fuel (a :: path)) elems (fun x _ =>
+            ih (a :: path) x (List.nodup_cons.mpr ⟨hp, hnd⟩)
+              (fun b hb => by
+                rcases List.mem_cons.mp hb with rfl | hb'
+                · exact halt
+                · exact hin b hb')
+              (by simp only [List.length_cons]; omega))
+          cases hm : elems.mapM (renderC h fuel (a :: path)) with
+          | none => simp [hm] at this
+          | some parts => simp [hm]
+
+/-- top level: fuel `heap size + 1` always suffices -/
+theorem cyc_render_total (h : CHeap) (v : CVal) : (renderC h (h.length + 1) [] v).isSome :=
+  cyc_total h _ [] v List.nodup_nil (by simp) (by simp)
+
+/-- a slice whose first element is the slice itself, and two slices containing each other -/
+example : renderC [[.cref 0, .int 2]] 2 [] (.cref 0) = some "[[...] 2]" := by decide
+example : renderC [[.cref 1, .int 1], [.cref 0, .cref 1]] 3 [] (.cref 0) = some "[[[...] [...]] 1]" := by decide
+
 /-! ### non-vacuity: deep nesting, and cyclic object graphs on which rendering still terminates -/
 
 def i (n : Int) : Val := .scalar (.int n)
@@ -147,3 +211,5 @@ end Goat.Props.C14
 #print axioms Goat.Props.C14.struct_fields_in_order
 #print axioms Goat.Props.C14.cut_unsafe_struct
 #print axioms Goat.Props.C14.cut_unsafe_slice
+#print axioms Goat.Props.C14.cyc_total
+#print axioms Goat.Props.C14.cyc_render_total
